@@ -21,6 +21,34 @@ pub fn key_of(run: &MpcRun, p: usize) -> Option<u128> {
         .map(|x| u128::from_le_bytes(x.data[..16].try_into().unwrap()))
 }
 
+/// Messages that no real execution contains: the scripted adversary's replayed messages from the
+/// point where what it received differs from the reference run (they were computed from the other
+/// run's data), and, causally, everything an honest party sends after it consumed such a message.
+/// Pooling them with this run's messages would pool two executions with the same secrets.
+pub fn counterfactual_set(run: &MpcRun) -> Vec<bool> {
+    let tr = &run.res.transcript;
+    let mut tainted: Vec<bool> = tr.iter().map(|m| m.counterfactual).collect();
+    if !tainted.iter().any(|t| *t) {
+        return tainted;
+    }
+    let n = run.res.ends.len();
+    let mut taint_at = vec![u64::MAX; n];
+    // (ord, is_recv, party, transcript index)
+    let mut ops: Vec<(u64, bool, usize, usize)> = tr.iter().enumerate().map(|(i, m)| (m.ord, false, m.from, i)).collect();
+    ops.extend(run.res.recvs.iter().map(|r| (r.ord, true, r.party, r.tr)));
+    ops.sort();
+    for (ord, is_recv, p, i) in ops {
+        if is_recv {
+            if tainted[i] && ord < taint_at[p] {
+                taint_at[p] = ord;
+            }
+        } else if ord > taint_at[p] {
+            tainted[i] = true;
+        }
+    }
+    tainted
+}
+
 /// XOR-set search for the global key of every honest party in everything that was sent.
 pub fn c07_oracle(spec: &MpcSpec, run: &MpcRun, triple_budget: usize) -> (Vec<Violation>, u64, u64) {
     let mut v = vec![];
@@ -30,7 +58,11 @@ pub fn c07_oracle(spec: &MpcSpec, run: &MpcRun, triple_budget: usize) -> (Vec<Vi
     let mut windows: HashSet<u128> = HashSet::new();
     let mut fields: Vec<u128> = vec![];
     let mut total_bytes = 0u64;
-    for m in &run.res.transcript {
+    let cf = counterfactual_set(run);
+    for (mi, m) in run.res.transcript.iter().enumerate() {
+        if cf[mi] {
+            continue;
+        }
         let d = &m.data;
         total_bytes += d.len() as u64;
         if d.len() >= 16 {
@@ -49,9 +81,9 @@ pub fn c07_oracle(spec: &MpcSpec, run: &MpcRun, triple_budget: usize) -> (Vec<Vi
     fields.retain(|f| *f != 0);
     let fset: HashSet<u128> = fields.iter().copied().collect();
     let locate = |x: u128| -> String {
-        for m in &run.res.transcript {
+        for (mi, m) in run.res.transcript.iter().enumerate() {
             let d = &m.data;
-            if d.len() < 16 {
+            if d.len() < 16 || cf[mi] {
                 continue;
             }
             for i in 0..=(d.len() - 16) {
@@ -136,7 +168,7 @@ impl Check for C07 {
         "fault_enumeration"
     }
     fn rule(&self) -> String {
-        "two kinds of evaluation: (a) honest simulated runs (circuits with NOT gates, all roles, n in 2..4); (b) attacked runs: every must-detect and optional deviation of the C04 catalogue (message deviations with the scripted adversary that never stops, self-consistent lies with the live adversary + taps) the structure-aware mutations of the online-phase messages, one per run, and a seeded swarm of multi-edit runs. After each run everything sent by anyone is pooled; for every honest party h with probed global key D: D appears at no byte offset in either byte order; no two 16-byte windows (all offsets, both orders) XOR to D; no three decoded 128-bit fields XOR to D (pair budget per run: 3e5 in quick, 2e7 in thorough, which is exhaustive for the small configurations). The oracle is applied whatever the outcome of the run (a leak followed by an abort is a leak). distinct = (configuration, deviation) hash".into()
+        "two kinds of evaluation: (a) honest simulated runs (circuits with NOT gates, all roles, n in 2..4); (b) attacked runs: every must-detect and optional deviation of the C04 catalogue (message deviations with the scripted adversary that never stops, self-consistent lies with the live adversary + taps) the structure-aware mutations of the online-phase messages, one per run, and a seeded swarm of multi-edit runs. Every single-message deviation is run twice: with the scripted adversary (keeps going whatever happens) and with the live adversary (real code on the corrupted side, so everything it transmits is computed from what it holds in this run). After each run everything sent by anyone is pooled, except counterfactual messages: what the scripted adversary replays after the honest parties' answers to it differ from the reference run (computed from another execution with the same secrets - a rewinding adversary, which the statement does not cover) and, causally, whatever honest parties send after consuming such a message; for every honest party h with probed global key D: D appears at no byte offset in either byte order; no two 16-byte windows (all offsets, both orders) XOR to D; no three decoded 128-bit fields XOR to D (pair budget per run: 3e5 in quick, 2e7 in thorough, which is exhaustive for the small configurations). The oracle is applied whatever the outcome of the run (a leak followed by an abort is a leak). distinct = (configuration, deviation) hash".into()
     }
     fn assumptions(&self) -> Vec<String> {
         vec![
@@ -208,6 +240,20 @@ impl Check for C07 {
         for sp in random_multi_faults(&cfg, &r, seed, if budget > 1_000_000 { 400 } else { 80 }) {
             specs.push(("swarm:multi-fault".into(), sp));
         }
+        // every single-message deviation of the scripted adversary also with the live adversary: the
+        // scripted one never stops but its messages after the honest parties' answers change are
+        // counterfactual (excluded from the pool); the live one computes everything it sends from what
+        // it really holds in this run (it may abort on its own inconsistency)
+        let live: Vec<(String, MpcSpec)> = specs
+            .iter()
+            .filter(|(_, s)| matches!(s.adversary, Some((_, AdvMode::Scripted))) && s.taps.is_empty() && !s.faults.is_empty())
+            .map(|(k, s)| {
+                let mut s = s.clone();
+                s.adversary = s.adversary.map(|(c, _)| (c, AdvMode::Live));
+                (format!("{k}:live"), s)
+            })
+            .collect();
+        specs.extend(live);
         for (i, (kind, spec)) in specs.into_iter().enumerate() {
             if i as u64 % 4 != shard {
                 continue;
@@ -231,6 +277,8 @@ impl Check for C07 {
             let (v, bytes, lookups) = c07_oracle(&spec, &run, budget);
             out.count("bytes_pooled", bytes);
             out.count("xor_lookups", lookups);
+            out.count("counterfactual_messages_excluded", counterfactual_set(&run).iter().filter(|t| **t).count() as u64);
+            out.count(if matches!(spec.adversary, Some((_, AdvMode::Live))) { "attacked_runs_live_adversary" } else { "attacked_runs_scripted_adversary" }, 1);
             out.violations.extend(v);
             if out.samples.is_empty() {
                 out.samples.push(json!({"configuration": cfg.base.sample(), "corrupted": cfg.c, "deviation": kind, "fault": describe_fault(&spec),
